@@ -1,0 +1,170 @@
+//go:build verif
+
+package genetics
+
+import (
+	"context"
+	"github.com/yaricom/goNEAT/v4/neat"
+	"github.com/yaricom/goNEAT/v4/neat/network"
+)
+
+// The exported shims over unexported genetic operators and state to be used by runtime monitors. Nothing else.
+
+// VerifOrganismState the snapshot of unexported organism's fields
+type VerifOrganismState struct {
+	OriginalFitness           float64
+	ToEliminate               bool
+	IsChampion                bool
+	SuperChampOffspring       int
+	IsPopulationChampion      bool
+	IsPopulationChampionChild bool
+	HighestFitness            float64
+	MutationStructBaby        bool
+	MateBaby                  bool
+}
+
+func (o *Organism) VerifState() VerifOrganismState {
+	return VerifOrganismState{
+		OriginalFitness:           o.originalFitness,
+		ToEliminate:               o.toEliminate,
+		IsChampion:                o.isChampion,
+		SuperChampOffspring:       o.superChampOffspring,
+		IsPopulationChampion:      o.isPopulationChampion,
+		IsPopulationChampionChild: o.isPopulationChampionChild,
+		HighestFitness:            o.highestFitness,
+		MutationStructBaby:        o.mutationStructBaby,
+		MateBaby:                  o.mateBaby,
+	}
+}
+
+// VerifCachedPhenotype returns phenotype held by organism without building it
+func (o *Organism) VerifCachedPhenotype() *network.Network {
+	return o.orgPhenotype
+}
+
+// VerifPopulationState the snapshot of unexported population's fields
+type VerifPopulationState struct {
+	Innovations  []Innovation
+	NextInnovNum int64
+	NextNodeId   int32
+}
+
+func (p *Population) VerifState() VerifPopulationState {
+	p.mutex.Lock()
+	defer p.mutex.Unlock()
+	innovations := make([]Innovation, len(p.innovations))
+	copy(innovations, p.innovations)
+	return VerifPopulationState{Innovations: innovations, NextInnovNum: p.nextInnovNum, NextNodeId: p.nextNodeId}
+}
+
+func (p *Population) VerifClearInnovations() {
+	p.innovations = make([]Innovation, 0)
+}
+
+func (p *Population) VerifSpeciate(ctx context.Context, organisms []*Organism) error {
+	return p.speciate(ctx, organisms)
+}
+
+// VerifNewEmptyPopulation creates empty population with given counters
+func VerifNewEmptyPopulation(nextInnovNum int64, nextNodeId int32) *Population {
+	p := newPopulation()
+	p.nextInnovNum = nextInnovNum
+	p.nextNodeId = nextNodeId
+	return p
+}
+
+func (i Innovation) VerifIsNewNode() bool {
+	return i.innovationType == newNodeInnType
+}
+
+func VerifNewGenomeRand(newId, in, out, n, maxHidden int, recurrent bool, linkProb float64, opts *neat.Options) (*Genome, error) {
+	return newGenomeRand(newId, in, out, n, maxHidden, recurrent, linkProb, opts)
+}
+
+func VerifGeneInsert(genes []*Gene, g *Gene) []*Gene {
+	return geneInsert(genes, g)
+}
+
+func VerifNodeInsert(nodes []*network.NNode, n *network.NNode) []*network.NNode {
+	return nodeInsert(nodes, n)
+}
+
+func (g *Genome) VerifNodeMapSize() int {
+	return len(g.nodeByIdMap)
+}
+
+func (g *Genome) VerifDuplicate(newId int) (*Genome, error) {
+	return g.duplicate(newId)
+}
+
+func (g *Genome) VerifVerify() (bool, error) {
+	return g.verify()
+}
+
+func (g *Genome) VerifCompatibility(og *Genome, opts *neat.Options) float64 {
+	return g.compatibility(og, opts)
+}
+
+func (g *Genome) VerifCompatLinear(og *Genome, opts *neat.Options) float64 {
+	return g.compatLinear(og, opts)
+}
+
+func (g *Genome) VerifCompatFast(og *Genome, opts *neat.Options) float64 {
+	return g.compatFast(og, opts)
+}
+
+func (g *Genome) VerifMateMultipoint(og *Genome, genomeId int, fitness1, fitness2 float64) (*Genome, error) {
+	return g.mateMultipoint(og, genomeId, fitness1, fitness2)
+}
+
+func (g *Genome) VerifMateMultipointAvg(og *Genome, genomeId int, fitness1, fitness2 float64) (*Genome, error) {
+	return g.mateMultipointAvg(og, genomeId, fitness1, fitness2)
+}
+
+func (g *Genome) VerifMateSinglePoint(og *Genome, genomeId int) (*Genome, error) {
+	return g.mateSinglePoint(og, genomeId)
+}
+
+func (g *Genome) VerifMutateConnectSensors(innovations InnovationsObserver, opts *neat.Options) (bool, error) {
+	return g.mutateConnectSensors(innovations, opts)
+}
+
+func (g *Genome) VerifMutateAddLink(innovations InnovationsObserver, generation int, opts *neat.Options) (bool, error) {
+	return g.mutateAddLink(innovations, generation, opts)
+}
+
+func (g *Genome) VerifMutateAddNode(innovations InnovationsObserver, nodeIdGenerator network.NodeIdGenerator, opts *neat.Options) (bool, error) {
+	return g.mutateAddNode(innovations, nodeIdGenerator, opts)
+}
+
+// VerifMutateLinkWeights applies weights mutation, cold = true selects the cold Gaussian mutator
+func (g *Genome) VerifMutateLinkWeights(power, rate float64, cold bool) (bool, error) {
+	if cold {
+		return g.mutateLinkWeights(power, rate, goldGaussianMutator)
+	}
+	return g.mutateLinkWeights(power, rate, gaussianMutator)
+}
+
+func (g *Genome) VerifMutateRandomTrait(opts *neat.Options) (bool, error) {
+	return g.mutateRandomTrait(opts)
+}
+
+func (g *Genome) VerifMutateLinkTrait(times int) (bool, error) {
+	return g.mutateLinkTrait(times)
+}
+
+func (g *Genome) VerifMutateNodeTrait(times int) (bool, error) {
+	return g.mutateNodeTrait(times)
+}
+
+func (g *Genome) VerifMutateToggleEnable(times int) (bool, error) {
+	return g.mutateToggleEnable(times)
+}
+
+func (g *Genome) VerifMutateGeneReEnable() (bool, error) {
+	return g.mutateGeneReEnable()
+}
+
+func (g *Genome) VerifMutateAllNonstructural(opts *neat.Options) (bool, error) {
+	return g.mutateAllNonstructural(opts)
+}
